@@ -673,6 +673,8 @@ def run(prog, ctx):
     res.rule("C10.P", n_p, 3, "cdf / pmf construction from rank")
     # the centroid means rank/quantile interpolate between: a merged mean is the finite weighted mean, exact for ties (C15.A)
     C.import_rules(res, prog, ctx, "C10.A", "C15", ("C15.A",), "merged centroid mean", 3)
+    # ---------------- C10.K a decision taken after a call that changes a counter looks at the counter after it (common.stale_count_decisions)
+    C.stale_count_rule(res, prog, "C10.K", "tdigest::", "t-digest")
     res.explanation = ("the expression returned at each return site of rank()/quantile() is extracted with the branch decisions of every path to it and "
                        "summaries of the accumulation loops in front of it, and evaluated on %d sampled digest states satisfying the digest invariants; "
                        "range and monotonicity in the query are checked per site" % n_digests)
